@@ -22,6 +22,9 @@ type Resp struct {
 	// IDDelta is added to the correlation id echoed in the response (0 = the request's id; anything else is a framing
 	// error of the broker: a response nobody asked for).
 	IDDelta int32
+	// SizeSet: the size prefix of the frame is Size instead of len(Body)+4 (a lying size prefix)
+	SizeSet bool
+	Size    int32
 }
 
 // Req is one request seen by the broker.
@@ -38,8 +41,8 @@ type Broker struct {
 	log      []Req
 	written  int // bytes of responses written so far
 	srv      net.Conn
-	hold     int      // >0: collect this many responses before writing any (several requests in flight)
-	holdCut  int      // cut position over the concatenation of the held frames (<0: none)
+	hold     int // >0: collect this many responses before writing any (several requests in flight)
+	holdCut  int // cut position over the concatenation of the held frames (<0: none)
 	pending  [][]byte
 	rawResp  []byte // != nil: the next exchange is un-framed (sasl v0 token): [int32 len][bytes] both ways
 	rawCut   int
@@ -213,6 +216,9 @@ func (b *Broker) serve() {
 			resp = Resp{Body: ApiVersionsBody(0, b.versions), Cut: -1}
 		}
 		f := Frame(r.ID+resp.IDDelta, resp.Body)
+		if resp.SizeSet {
+			binary.BigEndian.PutUint32(f[0:], uint32(resp.Size))
+		}
 		b.mu.Lock()
 		if b.hold > 0 {
 			b.pending = append(b.pending, f)
@@ -256,6 +262,7 @@ type W struct {
 func (w *W) I8(v int8)   { w.B = append(w.B, byte(v)) }
 func (w *W) I16(v int16) { w.B = append(w.B, byte(v>>8), byte(v)) }
 func (w *W) I32(v int32) { w.B = append(w.B, byte(v>>24), byte(v>>16), byte(v>>8), byte(v)) }
+
 // Cnt writes an int32 array count and records where.
 func (w *W) Cnt(v int32) {
 	w.CntPos = append(w.CntPos, len(w.B))
